@@ -11,7 +11,7 @@ from mc import schemas as S
 from mc.common2d import Reg, SignedSlice, resolve_insertions, subtotal, transforms_for
 from mc.compare import SKIP, arr_bytes, first_diff, num_eq
 from mc.engine import Res, Space, digest, multisets, viol
-from mc.model import Schema, tabulate
+from mc.model import CatVar, Schema, tabulate
 from mc.oracle import div
 from mc.partition import partition_oracles
 from props.c11 import cell_stats, _moments, _se
@@ -63,9 +63,15 @@ d12_3 = subtotal("d12_3", [1, 2], [3], anchor=1, sid=3)
 # differences without a usable positive part: nothing added / only a stale or missing id added
 dneg = subtotal("d_12", [], [1, 2], anchor="top", sid=4)
 dstale = subtotal("d99_1", [99, -1], [1], anchor=2, sid=5)
+# a NEGATIVE list naming only stale / missing ids: not a difference at all, a plain subtotal of its positive part
+pstale = subtotal("p12_99", [1, 2], [99, -1], anchor="bottom", sid=6)
 
 BASES = {
-    "cat3_x_cat2": (S.schema2("cat3_x_cat2", A3, B2, weighted=True), (1, 2), [{}, {"rows": [p12, d12]}, {"cols": [d12]}, {"rows": [dneg, dstale], "cols": [dneg]}], 2, 3),
+    "cat3_x_cat2": (S.schema2("cat3_x_cat2", A3, B2, weighted=True), (1, 2), [{}, {"rows": [p12, d12]}, {"cols": [d12]}, {"rows": [dneg, dstale], "cols": [dneg]},
+                     {"rows": [pstale, d12], "cols": [pstale]}], 2, 3),
+    # the variable's view defines two plain subtotals, the analysis overrides them with a difference + a plain one
+    "cat3view_x_cat2": (S.schema2("cat3view_x_cat2", CatVar(A3.alias, A3.cats, view_insertions=[p12, dict(pstale)]), B2, weighted=True),
+                        (1, 2), [{"rows": [d12, p12]}, {"rows": [p12, d12_3]}], 2, 3),
     "date3_x_cat2": (S.schema2("date3_x_cat2", D3, B2, weighted=True), (1, 2), [{}, {"rows": [p12, d12]}], 2, 3),
     "cat2_x_date3": (S.schema2("cat2_x_date3", B2, D3), (1,), [{}, {"cols": [p12, d12, d12_3]}], 2, 3),
     "date3_x_date2": (S.schema2("date3_x_date2", D3, E2), (1,), [{}], 2, 3),
